@@ -2,11 +2,13 @@
    Only statements; proofs live in Proof/P_Cmp.v (cascades, FlattenInListTransform) and
    Proof/P_CmpSw.v (SwitchTransform), Proof/P_CmpInt.v (PyObjectCompare on two ints),
    Proof/P_CmpFloat.v + Proof/P_CmpFloatQ.v (PyObjectCompare on a float and an int).
-   Models: Model/M_Cmp.v, Model/M_CmpInt.v, Model/M_CmpFloat.v.  In every model function the
+   Proof/P_CmpFold.v (ConstantFolding.visit_PrimaryCmpNode: constant links of a chain).
+   Models: Model/M_Cmp.v, Model/M_CmpInt.v, Model/M_CmpFloat.v, Model/M_CmpFold.v.  In every model function the
    boolean flag selects the code as it is (false) or the proposed repair (true). *)
 From Coq Require Import ZArith List Bool.
 From CyVerif Require Import Lib.CInt Lib.PyLong Model.M_Cmp Proof.P_Cmp Proof.P_CmpSw.
 From CyVerif Require Import Model.M_CmpInt Proof.P_CmpInt Model.M_CmpFloat Proof.P_CmpFloat Proof.P_CmpFloatQ.
+From CyVerif Require Import Model.M_CmpFold Proof.P_CmpFold.
 Import ListNotations.
 Open Scope Z_scope.
 
@@ -346,4 +348,78 @@ Proof.
     + constructor; [cbn; auto|]. constructor; [cbn; auto|]. constructor; [cbn; auto|constructor].
     + vm_compute. reflexivity.
     + vm_compute. reflexivity.
+Qed.
+
+(* ---- ConstantFolding.visit_PrimaryCmpNode: a comparison chain whose links between two
+        constants are folded at compile time (constant-True link dropped, constant-False link
+        cuts the chain, the remaining partial cascades joined by `and`) evaluates like the
+        unfolded chain - same value or exception, same operand evaluations, same comparison
+        calls and truth tests of logging objects - for EVERY chain, every constness assignment,
+        every semantics of the non-constant operands, every compile-time oracle that agrees with
+        the run-time comparison of the constants, when comparison results are True/False;
+        both for the code as it is (tf = false) and the repaired tail (tf = true) ---- *)
+Theorem C19_constfold_chain_eq :
+  forall ct cmp truth vbool loud,
+    (forall b, truth (vbool b) = inl b) -> (forall b, loud (vbool b) = false) ->
+    (forall op a b r, cmp op a b = inl r -> exists bb, r = vbool bb) ->
+    (forall op a b r, ct op a b = Some r -> cmp op a b = inl (vbool r)) ->
+    forall tf (c : chain), snd c <> [] -> chain_ok loud c ->
+    obs loud (run_fold cmp truth vbool ct tf false c) = obs loud (ref_cascade cmp truth (plain c)).
+Proof. exact fold_correct. Qed.
+Print Assumptions C19_constfold_chain_eq.
+
+(* a partial cascade of the folded chain runs on the temp machine of the first theorem *)
+Theorem C19_constfold_segment_is_cascade : forall cmp truth vbool (c : cascade),
+  snd c <> [] -> eval_node cmp truth vbool (FCasc c) [] = run_cascade cmp truth true c.
+Proof. exact fold_segment_is_cascade. Qed.
+Print Assumptions C19_constfold_segment_is_cascade.
+
+(* the variant that throws the partial cascades to the left of a constant-False link away
+   (`f() < 1 > 2` -> False, f never called) violates the statement under the same hypotheses *)
+Theorem C19_constfold_drop_left_refuted :
+  exists ct cmp truth vbool loud (c : chain),
+    (forall b, truth (vbool b) = inl b) /\ (forall b, loud (vbool b) = false) /\
+    (forall op a b r, cmp op a b = inl r -> exists bb, r = vbool bb) /\
+    (forall op a b r, ct op a b = Some r -> cmp op a b = inl (vbool r)) /\
+    chain_ok loud c /\ snd c <> [] /\
+    obs loud (run_fold cmp truth vbool ct false true c) <> obs loud (ref_cascade cmp truth (plain c)).
+Proof. exact fold_drop_left_refuted. Qed.
+Print Assumptions C19_constfold_drop_left_refuted.
+
+(* FULL statement (comparison results may be arbitrary objects, hypothesis 3 dropped): false for
+   the code as it is - `w < 2 > 1` returns the result object of w < 2 untested where Python
+   tests it and returns True (finding constfold_true_tail_result_untested; tf = true repairs
+   this witness) ... *)
+Theorem C19_constfold_objresult_refuted :
+  exists ct cmp truth vbool loud (c : chain),
+    (forall b, truth (vbool b) = inl b) /\ (forall b, loud (vbool b) = false) /\
+    (forall op a b r, ct op a b = Some r -> cmp op a b = inl (vbool r)) /\
+    chain_ok loud c /\ snd c <> [] /\
+    obs loud (run_fold cmp truth vbool ct false false c) <> obs loud (ref_cascade cmp truth (plain c)) /\
+    obs loud (run_fold cmp truth vbool ct true false c) = obs loud (ref_cascade cmp truth (plain c)).
+Proof. exact fold_objresult_refuted. Qed.
+Print Assumptions C19_constfold_objresult_refuted.
+
+(* ... and also with the repaired tail: a falsy result object inside a partial cascade of two
+   links that is followed by another node is truth-tested twice (finding
+   constfold_segment_result_tested_twice) *)
+Theorem C19_constfold_double_truth_refuted :
+  exists ct cmp truth vbool loud (c : chain),
+    (forall b, truth (vbool b) = inl b) /\ (forall b, loud (vbool b) = false) /\
+    (forall op a b r, ct op a b = Some r -> cmp op a b = inl (vbool r)) /\
+    chain_ok loud c /\ snd c <> [] /\
+    obs loud (run_fold cmp truth vbool ct true false c) <> obs loud (ref_cascade cmp truth (plain c)).
+Proof. exact fold_double_truth_refuted. Qed.
+Print Assumptions C19_constfold_double_truth_refuted.
+
+(* hypotheses of C19_constfold_chain_eq are satisfiable on a chain with a call, a constant-True
+   and a constant-False link:  f() < 1 > 2  keeps the call *)
+Example C19_constfold_nonvacuous :
+  chain_ok w_quiet w_chain /\ snd w_chain <> [] /\
+  fold w_ct false false w_chain =
+    [FCasc (mkOp 0 true (inl 0), [(0, mkOp 1 false (inl 1))]); FBool false] /\
+  run_fold w_cmp w_truth w_vbool w_ct false false w_chain = ([EvOp 0; EvCmp 0 0 1; EvTruth 1], OVal 0).
+Proof.
+  split; [exact (proj2 (proj2 (proj2 (proj2 w_hyps))))|]. split; [discriminate|].
+  split; vm_compute; reflexivity.
 Qed.
